@@ -1,7 +1,7 @@
 #!/bin/bash
 # Development tool: apply a seeded patch to /repo, run the given checks, undo the patch.
 #   trial.sh <patch.diff> <prop>...
-patch=$1; shift
+patch=$(realpath $1); shift
 git -C /repo status --short | grep -v '^??' | grep -q . && { echo "/repo not clean"; exit 2; }
 git -C /repo apply "$patch" || { echo "patch does not apply"; exit 2; }
 for p in "$@"; do
